@@ -367,8 +367,10 @@ class SSETransport(Transport):
             )
 
             # Check if this is a response to a pending request
+            # Only a response (no method) can answer a pending request; a server
+            # request that happens to reuse the id must not be taken for it
             message_id = message_data.get("id")
-            if message_id is not None:
+            if message_id is not None and "method" not in message_data:
                 message_id = str(message_id)
                 async with self._message_lock:
                     if message_id in self._pending_requests:
